@@ -322,6 +322,7 @@ def main(repo, out_path):
             except BaseException as e:  # noqa: BLE001
                 streams[str(salt)] = "error:" + type(e).__name__
         d["type7_streams"] = streams
+        d["type7_zero_bytes"] = 170
         acc = []
         for n in range(0, 400):
             try:
